@@ -1693,15 +1693,19 @@ pub(crate) fn add_sequence_dyn_zip<W, R, T>(
                 XSequenceType::xtype(Arc::new(XType::Tuple(inner_types))),
             ),
             move |args, ns, _tca, rt| {
+                // every argument is evaluated (an erroring one yields its error) before the
+                // empty-argument shortcut is taken
                 let mut seqs = vec![];
                 for a in args {
                     let a = xraise!(eval(a, ns, &rt)?);
-                    let seq = to_native!(a, XSequence<W, R, T>);
-                    if seq.is_empty() {
-                        return Ok(manage_native!(XSequence::<W, R, T>::Empty, rt));
-                    }
                     seqs.push(a);
                     rt.can_afford(&seqs)?
+                }
+                if seqs
+                    .iter()
+                    .any(|a| to_native!(a, XSequence<W, R, T>).is_empty())
+                {
+                    return Ok(manage_native!(XSequence::<W, R, T>::Empty, rt));
                 }
                 Ok(manage_native!(XSequence::<W, R, T>::Zip(seqs), rt))
             },
